@@ -107,7 +107,13 @@ func (k *Kit) Close() {
 }
 
 // SetLimit changes max_cache_size the way a run-time override does.
-func (k *Kit) SetLimit(n int64) { setBase(&k.Cfg.Cache.MaxCacheSize, bytesize.ByteSize(n)) }
+func (k *Kit) SetLimit(n int64) {
+	if n < 1 {
+		n = 1
+	}
+	// through the public update path, so that subscribers are notified as in production
+	config.UpdatePartialFromConfig(k.Cfg, map[string]any{"cache": map[string]any{"max_cache_size": fmt.Sprintf("%dB", n)}})
+}
 
 // Key returns the cache key of universe member i.
 func Key(i int) cache.CacheKey { return cache.FromString(fmt.Sprintf("verif-key-%d", i)) }
